@@ -7,6 +7,10 @@ structure Keys where
   matched : List Nat := []
   mkeys : List Nat := []
   mustWait : Bool := false
+  /-- keys fed by a macro have been dispatched since the terminal was last read -/
+  fromMacro : Bool := false
+  /-- number of times keys have been fed since then -/
+  nested : Nat := 0
 deriving Repr
 
 namespace Keys
@@ -18,14 +22,30 @@ def peek (k : Keys) : Option Nat :=
     | r :: _ => some (r % 256)
     | [] => none
 
+/-- `core.PopKey` (also the queue discipline of `Keys.Pop`, `Keys.ReadKey`, `core.PopForce`): typed keys
+first; a key taken from the macro queue raises `fromMacro` -/
 def pop (k : Keys) : Keys :=
   match k.buf with
   | _ :: t => { k with buf := t }
   | [] => match k.mkeys with
-    | _ :: t => { k with mkeys := t }
+    | _ :: t => { k with mkeys := t, fromMacro := true }
     | [] => k
 
 def popForce (k : Keys) : Keys := { k.pop with mustWait := false }
+
+/-- `maxNestedFeeds` -/
+def maxNested : Nat := 32
+
+/-- `Keys.Feed(false, keys...)`: append to the macro queue; once macro keys have been dispatched the
+feeds are counted, and past `maxNested` the macro queue is dropped instead -/
+def feed (k : Keys) (ks : List Nat) : Keys :=
+  if ks.isEmpty then k else
+  let n := if k.fromMacro then k.nested + 1 else k.nested
+  if n > maxNested then { k with nested := n, mkeys := [] }
+  else { k with nested := n, mkeys := k.mkeys ++ ks }
+
+/-- what `WaitAvailableKeys` resets when it goes on to read the terminal -/
+def beforeRead (k : Keys) : Keys := { k with fromMacro := false, nested := 0 }
 
 def matchedKeys (k : Keys) (m : List Nat) (args : List Nat) : Keys :=
   { k with matched := if m.isEmpty then k.matched else runesOfBytes m,
@@ -71,6 +91,10 @@ structure Eng where
   /-- the `convert-meta` variable -/
   convertMetaOn : Bool := false
   registered : List String := []
+  /-- a non-incremental search minibuffer is being edited (`NonIncrementalSearchStart`) -/
+  nonInc : Bool := false
+  /-- the local keymap is isearch (`m.Local() == Isearch`) -/
+  lisearch : Bool := false
 deriving Repr
 
 /-- `Engine.insertsText` -/
@@ -137,13 +161,40 @@ def matchCharacter (e : Eng) (bind : Bind) (pfx : Bool) (read : Seq) : Eng × Bi
     else ({ r.1 with active := selfInsertBind }, selfInsertBind, false, r.2.1)
   else (e, bind, pfx, read)
 
-/-- `MatchMain` (no non-incremental search). Returns engine, bind, command present, prefix. -/
+/-- the non-incremental-search override of `MatchMain`: keys that run no command, or only match a
+prefix, are inserted in the minibuffer -/
+def nonIncOverride (e : Eng) (bind : Bind) (pfx : Bool) : Eng × Bind × Bool :=
+  if e.nonInc && (!hasCmd e bind || pfx) then ({ e with active := selfInsertBind }, selfInsertBind, false)
+  else (e, bind, pfx)
+
+/-- `isearchCommands` (internal/keymap/completion.go): the commands of the main keymap that stay bound
+while the incremental search is active -/
+def isearchCommands : List String := ["abort", "backward-delete-char", "backward-kill-word", "backward-kill-line",
+  "unix-line-discard", "unix-word-rubout", "vi-unix-word-rubout", "clear-screen", "clear-display", "magic-space",
+  "vi-movement-mode", "yank", "self-insert", "accept-and-infer-next-history", "accept-line", "accept-and-hold",
+  "operate-and-get-next", "history-incremental-search-forward", "history-incremental-search-backward",
+  "forward-search-history", "reverse-search-history", "history-search-forward", "history-search-backward",
+  "history-substring-search-forward", "history-substring-search-backward", "incremental-forward-search-history",
+  "incremental-reverse-search-history"]
+
+/-- `nonIsearchCommands`: the same for a non-incremental search minibuffer -/
+def nonIsearchCommands : List String := ["abort", "accept-line", "backward-delete-char", "backward-kill-word",
+  "backward-kill-line", "unix-line-discard", "unix-word-rubout", "vi-unix-word-rubout", "self-insert"]
+
+/-- `getContextBinds(true)`: the binds of the main keymap, restricted in the search modes -/
+def Eng.mainBinds (e : Eng) : List (Seq × Bind) :=
+  if e.lisearch then e.mainTbl.filter (fun sb => isearchCommands.contains sb.2.action)
+  else if e.nonInc then e.mainTbl.filter (fun sb => nonIsearchCommands.contains sb.2.action)
+  else e.mainTbl
+
+/-- `MatchMain`. Returns engine, bind, command present, prefix. -/
 def matchMain (e : Eng) : Eng × Bind × Bool × Bool :=
-  if e.mainTbl.isEmpty then (e, Bind.none, false, false) else
+  if e.mainBinds.isEmpty then ({ e with keys := e.keys.popForce }, Bind.none, false, false) else
   let n := e.keys.buf.length + e.keys.mkeys.length
-  let (e0, pfx0, read0, _) := dispatchKeys e.mainTbl n e [] [] false
-  let (e1, bind, pfx, read) := matchCharacter e0 e0.active pfx0 read0
-  let e2 := { e1 with keys := if pfx then e1.keys.matchedPrefix read else e1.keys.matchedKeys read [] }
+  let (e0, pfx0, read0, _) := dispatchKeys e.mainBinds n e [] [] false
+  let (e1, bind1, pfx1, read) := matchCharacter e0 e0.active pfx0 read0
+  let e2' := { e1 with keys := if pfx1 then e1.keys.matchedPrefix read else e1.keys.matchedKeys read [] }
+  let (e2, bind, pfx) := nonIncOverride e2' bind1 pfx1
   if isEscapeKey e2 && !e2.isEmacs && pfx then
     -- handleEscape(true)
     let b := if e2.prefixed.action = "vi-movement-mode" then e2.prefixed else Bind.none
